@@ -2,6 +2,8 @@
 """Function-call cases [f, args (values)] -> observations for Trace_Eval: the call is written with
 its arguments bound as variables (arrays as host lists) and, when every argument is expressible, as
 literals too."""
+import random
+
 from . import formula as F
 from .values import dec, lit_number
 
@@ -36,7 +38,11 @@ RANGES = [('A1', 'C3'), ('E1', 'G3'), ('I1', 'K3')]
 def observe(lib, cases, literal=True, checks=('value',), extra_env=None, ranges=False):
     obs = []
     h = None
-    for n, c in enumerate(cases):
+    # evaluated in a seeded random order: an answer must not depend on which call of its kind came first in the process
+    order = list(range(len(cases)))
+    random.Random(20260927 + len(cases)).shuffle(order)
+    for n in order:
+        c = cases[n]
         f, args = c['f'], c['args']
         env = F.empty_env()
         if extra_env:
@@ -75,4 +81,46 @@ def observe(lib, cases, literal=True, checks=('value',), extra_env=None, ranges=
             o.update({'id': len(obs) + 1, 'ast': a, 'env': e, 'formula': text, 'checks': list(checks),
                       'in': {'f': f, 'args': args, 'formula': text}})
             obs.append(o)
+    return obs
+
+
+def _mutate(x):
+    """change a host list in place (same object, same shape, other contents)"""
+    for i, v in enumerate(x):
+        if isinstance(v, list):
+            _mutate(v)
+        elif isinstance(v, bool) or v is None:
+            pass
+        elif isinstance(v, (int, float)):
+            x[i] = v + 1000
+        elif isinstance(v, str):
+            x[i] = v + '~'
+
+
+def observe_after_mutation(lib, cases, checks=('value',)):
+    """each call is evaluated, then the host changes its own list arguments in place (same objects) and the call is
+    evaluated again on the same parser: the second answer is judged against the new contents"""
+    from .values import enc
+    obs = []
+    for c in cases:
+        f, args = c['f'], c['args']
+        if not any(a['t'] == 'arr' for a in args):
+            continue
+        env = F.empty_env()
+        env['vars'] = {NAMES[i]: a for i, a in enumerate(args)}
+        ast = F.call(f, *[F.var(NAMES[i]) for i in range(len(args))])
+        h = F.Harnessed(lib, env)
+        text = F.render(ast)
+        h.parse(text)
+        env2 = F.empty_env()
+        env2['vars'] = dict(env['vars'])
+        for i, a in enumerate(args):
+            if a['t'] == 'arr':
+                obj = h.p.get_variable(NAMES[i])
+                _mutate(obj)
+                env2['vars'][NAMES[i]] = enc(obj)
+        o = h.parse(text)
+        o.update({'id': len(obs) + 1, 'ast': ast, 'env': env2, 'formula': text, 'checks': list(checks),
+                  'in': {'f': f, 'args': args, 'formula': text, 'after_mutation': True}})
+        obs.append(o)
     return obs
